@@ -155,6 +155,10 @@ def templates(tier, seed):
     for form in ("while", "until", "if", "while-sub"):
         for k in (1, 2, 3):
             tds.append(dict(fam="textvar", body="rectvar", form=form, k=k))
+    for form in ("count-frac-0.9/0.3", "count-frac-1.8/0.6", "count-frac-4.2/0.6", "count-frac-var", "while-elemref", "until-elemref", "while-elemref-id", "for-empty-pass-last", "for-empty-pass-mid", "for-empty-pass-in-g",
+                 "loop-empty-pass-last"):
+        for k in (1, 2):
+            tds.append(dict(fam="ground2", body="rectvar", form=form, k=k))
     for b in B:
         for n in (1, 2, 3):
             tds.append(dict(fam="count-var", body=b, n=n))
@@ -305,6 +309,54 @@ def build(td, wrong=False):
             loop = (f'<var a="{k}"/><var i="$a + 1"/><if test="eq($i * 2, {2 * k + 2})">{X[0]}</if><if test="eq(10 - $i, {9 - k})">{X[1]}</if><if test="eq($i * 2, {k + 2})">{X[2]}</if>'
                     f'<if test="$i * 0">{X[3]}</if><if test="not(eq($i * 3, {3 * k + 3}))">{X[3]}</if>')
             un = f'<var a="{k}"/><var i="$a + 1"/>{X[0]}{X[1]}'
+    elif fam == "ground2":
+        form, k = td["form"], td["k"]
+        ky = alloc([(3, *V)])
+        Y = f"[[{ky}]]"
+        if form.startswith("count-frac"):
+            # a count expression has the value that the same expression shows anywhere else in the document
+            if form == "count-frac-var":
+                loop = f'<var len="1.8" pitch="0.6"/><loop count="{{{{$len / $pitch}}}}" loop-var="i"><rect xy="$i {Y}" wh="{k}"/></loop>'
+                n = 3
+            else:
+                a, b = form[11:].split("/")
+                n = round(float(a) / float(b))
+                loop = f'<loop count="{{{{{a} / {b}}}}}" loop-var="i"><rect xy="$i {Y}" wh="{k}"/></loop>'
+            un = "".join(f'<var i="{j}"/><rect xy="{j} {Y}" wh="{k}"/>' for j in range(n))
+            if form == "count-frac-var":
+                un = '<var len="1.8" pitch="0.6"/>' + un
+        elif form in ("while-elemref", "until-elemref", "while-elemref-id"):
+            # a condition over element references is a condition like any other: tested afresh before / after each pass
+            step = 4 + 2 * k
+            first = f'<rect id="b0" xy="0 {Y}" wh="4"/>'
+            body = f'<rect xy="^|h {2 * k}" wh="4"/>'
+            # x2 of the previous element: 4, 4+step, ...; passes while x2 < 20
+            n = len([j for j in range(0, 50) if 4 + j * step < 20])
+            if form == "while-elemref":
+                loop = f'{first}<loop while="lt(^~x2, 20)">{body}</loop>'
+            elif form == "while-elemref-id":
+                body = f'<rect id="b$n" xy="^|h {2 * k}" wh="4"/><var n="{{{{$n + 1}}}}"/>'
+                loop = f'{first}<var n="1"/><loop while="lt(^~x2, 20) and lt(#b0~x2, 20)">{body}</loop>'
+            else:
+                loop = f'{first}<loop until="ge(^~x2, 20)">{body}</loop>'
+            if form == "while-elemref-id":
+                un = f'{first}<var n="1"/>' + body * n
+            else:
+                un = first + body * n
+        else:
+            # passes that render nothing leave the extent of the other passes alone (root extent, enclosing group's box)
+            vals = {"for-empty-pass-last": [1, 2, 9], "for-empty-pass-mid": [1, 9, 2], "for-empty-pass-in-g": [1, 2, 9], "loop-empty-pass-last": [0, 1, 2]}[form]
+            item = lambda v: f'<rect xy="{{{{{v} * 10}}}} {Y}" wh="{3 + k}"/>'
+            inner = f'<if test="lt($i, {2 if form.startswith("loop") else 5})"><rect xy="{{{{$i * 10}}}} {Y}" wh="{3 + k}"/></if>'
+            if form.startswith("loop"):
+                loop = f'<loop count="3" loop-var="i">{inner}</loop>'
+                un = "".join(f'<var i="{v}"/>' + (item(v) if v < 2 else "") for v in vals)
+            else:
+                loop = f'<for var="i" data="{", ".join(map(str, vals))}">{inner}</for>'
+                un = "".join(f'<var i="{v}"/>' + (item(v) if v < 5 else "") for v in vals)
+            if form.endswith("in-g"):
+                loop = f'<g id="grp">{loop}</g><circle cxy="#grp@r" r="1"/>'
+                un = f'<g id="grp">{un}</g><circle cxy="#grp@r" r="1"/>'
     elif fam == "count-var":
         # the count is an expression over a variable that the body itself changes: it is evaluated once, on entry
         n = td["n"]
